@@ -502,7 +502,17 @@ class Env:
         self.vars[name] = val
 
 
+NONFINITE = [0]  # incremented whenever an intermediate result is not a finite number
+
+
 def eval_expr(e, env: Env):
+    v = _eval_expr(e, env)
+    if v != v or v in (INF, -INF):
+        NONFINITE[0] += 1
+    return v
+
+
+def _eval_expr(e, env: Env):
     k = e[0]
     if k == 'num':
         return e[1]
